@@ -8,8 +8,9 @@ import (
 	"strings"
 	"sync"
 
-	"github.com/go-critic/go-critic/checkers"
 	"github.com/go-critic/go-critic/linter"
+
+	"verifharness/internal/load"
 )
 
 var Tags = []string{"diagnostic", "style", "performance", "experimental", "opinionated", "security"}
@@ -24,9 +25,7 @@ func Name(mask int) string { return fmt.Sprintf("zzProbe%02d", mask) }
 
 func Register() {
 	once.Do(func() {
-		if err := checkers.InitEmbeddedRules(); err != nil {
-			panic(err)
-		}
+		load.InitRules()
 		var coll linter.CheckerCollection
 		for mask := 0; mask < 64; mask++ {
 			var tags []string
